@@ -265,6 +265,8 @@ def run_family(ctx, scs, prefixes, rule, family=None, binary=None, timeout=90, w
     ctx.run_mvh(["defs", "-out", defs])
     runs = play(ctx, scs, binary=binary, timeout=timeout, workers=workers)
     st = validate(ctx, runs, defs, prefixes)
+    if family in ("events", "close"):
+        fidelity(ctx, runs, limit=200 if ctx.thorough() else 24)
     for sc in scs:
         ctx.distinct.add(shape(sc))
     ctx.sample({"name": scs[0]["name"], "conf": scs[0]["conf"], "endpoints": scs[0]["endpoints"], "steps": scs[0]["steps"][:10]})
@@ -278,3 +280,110 @@ def run_family(ctx, scs, prefixes, rule, family=None, binary=None, timeout=90, w
     ctx.cov["node_stats"] = st
     ctx.cov["rule"] = rule
     return runs, st
+
+
+# ---------------------------------------------------------------------------------------------- fidelity
+def project(trace):
+    """Project a recorded node trace onto the observable alphabet of the INode model (for Trace_INode)."""
+    eps = {0: "e1", 1: "e2"}
+    out = []
+    wcount = {}
+    tagmap = {}
+    for r in trace:
+        e = r["e"]
+        if e == "Feed":
+            kind = {"valid": "ok", "badck": "bad", "hb": "ap"}.get(r["kind"])
+            if kind is None:
+                return None
+            out.append({"e": "arrive", "ep": eps[r["ep"]], "r": kind})
+        elif e == "ReadErr":
+            out.append({"e": "arrive", "ep": eps[r["ep"]], "r": "fatal"})
+        elif e == "WInv":
+            w = "w%d" % r["g"]
+            wcount[w] = wcount.get(w, 0) + 1
+            tagmap[r["tag"]] = (w, wcount[w])
+            kind = {"MsgAll": "all", "MsgTo": "to", "MsgExcept": "except"}.get(r["kind"])
+            if kind is None or r["target"] in ("foreign", "unknown"):
+                return None
+            out.append({"e": "write", "w": w, "kind": kind, "ep": eps.get(r["tep"], "e1"), "inst": max(1, r["tinst"])})
+        elif e == "Consumer":
+            out.append({"e": "consumer", "run": r["run"]})
+        elif e == "TMode":
+            out.append({"e": "tmode", "ep": eps[r["ep"]], "mode": r["mode"]})
+        elif e == "CloseInv":
+            out.append({"e": "close"})
+        elif e == "Ev":
+            if r["type"] == "streamreq" or r["inst"] == 0:
+                return None
+            out.append({"e": "ev", "type": r["type"], "ep": eps[r["ep"]], "inst": r["inst"]})
+        elif e == "TW":
+            b = r["bytes"]
+            if len(b) > 14 and b[0] == 253 and (b[7] | b[8] << 8 | b[9] << 16) == 252:
+                tag = b[10] | b[11] << 8 | b[12] << 16
+                if tag in tagmap:
+                    out.append({"e": "wire", "ep": eps[r["ep"]], "w": tagmap[tag][0], "i": tagmap[tag][1]})
+        elif e in ("Timeout", "Panic", "TWFail", "Unreached"):
+            return None
+    return out
+
+
+def fidelity(ctx, runs, limit=24):
+    """Validate the observable behaviour of replayed TLC-generated scenarios against the INode model
+    (Trace_INode, depth-first search with silent steps). A rejected trace is MODEL-DRIFT, never a violation."""
+    todo = []
+    for (sc, tp, rc, err) in runs:
+        if not sc["name"].startswith(("tlc_events", "tlc_close")) or rc != 0:
+            continue
+        tr = project(vf.read_ndjson(tp))
+        if not tr:
+            continue
+        neps = len(sc["endpoints"])
+        if neps > 2 or max([x.get("inst", 1) for x in tr] + [1]) > 3 or len(tr) > 40:
+            continue
+        p = tp + ".abs.ndjson"
+        with open(p, "w") as f:
+            for x in tr:
+                f.write(json.dumps(x) + "\n")
+        todo.append((sc["name"], p, neps))
+        if len(todo) >= limit:
+            break
+
+    def one(t):
+        name, p, neps = t
+        # model constants fitted to the trace: the environment of the model is then fully driven by the recorded events
+        tr = vf.read_ndjson(p)
+        writers = sorted(set(x["w"] for x in tr if x["e"] == "write"))
+        nwrites = max([sum(1 for x in tr if x["e"] == "write" and x["w"] == w) for w in writers] + [0])
+        arrivals = max([sum(1 for x in tr if x["e"] == "arrive" and x["ep"] == e) for e in ("e1", "e2")] + [1])
+        fatals = max([sum(1 for x in tr if x["e"] == "arrive" and x["ep"] == e and x["r"] == "fatal") for e in ("e1", "e2")] + [0])
+        insts = max([x.get("inst", 1) for x in tr] + [1])
+        budget = sum(1 for x in tr if x["e"] in ("consumer", "tmode"))
+        base = open(os.path.join(ctx.specdir, "Trace_INode_%d.cfg" % neps)).read()
+        cfg = base
+        for k, v in (("Writers", "{%s}" % ", ".join('"%s"' % w for w in writers)), ("NWrites", nwrites), ("MaxIn", arrivals),
+                     ("MaxCh", max(insts, fatals + 1) + 1), ("EnvBudget", budget), ("QCap", max(2, nwrites * max(1, len(writers)) + 1))):
+            cfg = re.sub(r"(?m)^  %s = .*$" % k, "  %s = %s" % (k, v), cfg)
+        cname = "Trace_INode_fit_%s.cfg" % os.path.basename(p).split(".")[0]
+        with open(os.path.join(ctx.specdir, cname), "w") as f:
+            f.write(cfg)
+        try:
+            rc, out = ctx.tlc("Trace_INode", cname, env={"TRACE": p}, workers=1, timeout=90, heap="3g",
+                              deque=True, tag="fidelity:" + name, count=False)
+        except vf.Inconclusive:
+            return (name, "timeout")
+        if "Invariant NotAccepted is violated" in out:
+            return (name, "accepted")
+        if "Model checking completed" in out:
+            return (name, "drift")
+        return (name, "error:" + vf.tail(out, 5))
+
+    with ThreadPoolExecutor(max_workers=max(2, vf.NCPU // 2)) as ex:
+        res = list(ex.map(one, todo))
+    acc = [n for n, v in res if v == "accepted"]
+    drift = [n for n, v in res if v == "drift"]
+    other = [(n, v) for n, v in res if v not in ("accepted", "drift")]
+    for n in drift:
+        print("MODEL-DRIFT property=%s scenario=%s (observable trace is not a behaviour of INode; not a violation)" % (ctx.prop, n), flush=True)
+    ctx.cov["model_fidelity"] = {"traces_checked_against_INode": len(res), "accepted": len(acc), "drift": drift[:10],
+                                 "inconclusive": [n for n, v in other][:10]}
+    return res
